@@ -202,7 +202,7 @@ def cargo_build(bins, timeout=3000):
         cmd += ["--bin", b]
     env = {"RUSTFLAGS": f"--cfg {GUARD}", "CARGO_TARGET_DIR": TARGET}
     rc, out = sh(cmd, cwd=HARNESS, env=env, timeout=timeout)
-    if rc != 0 and "Cargo.lock" in out and "needs to be updated" in out:
+    if rc != 0 and ("failed to select a version" in out or "needs to be updated" in out or "Cargo.lock" in out):
         shutil.copy(os.path.join(REPO, "Cargo.lock"), lock)
         rc, out = sh(cmd, cwd=HARNESS, env=env, timeout=timeout)
     return rc == 0, out
